@@ -11,14 +11,14 @@ ID = "C08"
 ENGINE = "E-CHR + E-LINE-style multi-line strings + char-E-EDIT + corpus, tiling oracle on the raw token stream"
 RULE = (
     "every string over the 19-character alphabet (nasty + form feed) up to the length bound, bare and in f-string / "
-    "triple-quoted / bracket carriers; every string over the two f-string alphabets inside f-string carriers (double-quoted, brace-open, triple-quoted); C10's structured f-string products, adjacency forms and nested f-strings; every E-TOK xonsh sequence; every character edit of the corpus; every corpus file. "
+    "triple-quoted / bracket carriers; every string over the two f-string alphabets inside f-string carriers (double-quoted, brace-open, triple-quoted); C10's structured f-string products, adjacency forms and nested f-strings; every E-TOK xonsh sequence; every character edit of the corpus; every corpus file; every module of the interpreter's own standard library as one input; identifiers^<=3 over 17 character classes. "
     "Domain: generate_tokens finishes. Oracle: token text == source slice, ordered, non-overlapping, gaps are only "
     "line-leading whitespace or backslash-newline, one NEWLINE per logical line, INDENT/DEDENT balance, single final "
     "ENDMARKER. Non-trivial = tokenizer finished and produced > 2 tokens (distinct texts)."
 )
 BOUND = {
-    "quick": "nasty_ff^<=4 bare, ^<=3 in 6 carriers; ind^<=6; fstr^<=4 in two f-string carriers; C10 f-string families; E-LINE depth 4; E-TOK xsh n<=3; char edits of 120 programs; 22 files",
-    "thorough": "nasty_ff^<=5 bare, ^<=4 in 6 carriers; ind^<=8; fstr^<=5 in two f-string carriers; C10 f-string families; E-LINE depth 6; E-TOK xsh n<=4; char edits of all programs; 22 files",
+    "quick": "nasty_ff^<=4 bare, ^<=3 in 6 carriers; ind^<=6; fstr^<=4 in two f-string carriers; C10 f-string families; E-LINE depth 4; E-TOK xsh n<=3; char edits of 120 programs; 22 files; 1265 standard-library modules (<= 16000 bytes)",
+    "thorough": "nasty_ff^<=5 bare, ^<=4 in 6 carriers; ind^<=8; fstr^<=5 in two f-string carriers; C10 f-string families; E-LINE depth 6; E-TOK xsh n<=4; char edits of all programs; 22 files; all 1737 standard-library modules",
 }
 ASSUMPTIONS = ["lines are split at '\\n' only (io.StringIO.readline semantics)", "inputs on which the tokenizer raises are outside the property's domain and only counted"]
 CARR = ["f2", "f3", "str3", "paren", "sub", "withm"]
@@ -40,6 +40,10 @@ def units(tier: str) -> list[tuple]:
     us += edits.char_units(tier)
     us += [("files",)]
     us += [("eline", 4 if tier == "quick" else 6)]
+    from ..explore import pylib, spell
+
+    us += pylib.units(tier, "tiling")  # every standard-library module as one input (CRLF copies in the thorough tier)
+    us += spell.ident_units()
     return us
 
 
@@ -54,6 +58,14 @@ def cases(unit: tuple):
         yield from c10.cases(unit[1])
     elif k == "cedit":
         yield from edits.char_expand(unit)
+    elif k == "pylib":
+        from ..explore import pylib
+
+        yield from pylib.expand(unit)
+    elif k == "spell":
+        from ..explore import spell
+
+        yield from spell.expand(unit)
     elif k == "files":
         for name, src in sorted(corpus.python_files().items()):
             yield src
@@ -77,6 +89,15 @@ def run_unit(unit: tuple, acc: Any) -> None:
 def check_case(src: Any, acc: Any) -> None:
     if isinstance(src, dict) and "lines" in src:
         return check_eline(src, acc)
+    lib = None
+    if isinstance(src, dict) and "pylib" in src:
+        from ..explore import pylib
+
+        lib = src
+        src = pylib.read(lib["pylib"])
+        if src is None:
+            acc.count("lib:not-utf8")
+            return
     if isinstance(src, dict):
         src = src["src"]
     st, toks = run.our_tokens(src)
@@ -89,7 +110,10 @@ def check_case(src: Any, acc: Any) -> None:
         acc.nontrivial(src)
     r = tiling.check(src, toks)
     if r is not None:
-        acc.violation(r[0], src, r[1])
+        if lib is not None:
+            acc.violation(r[0] + " [standard-library file]", {"pylib": lib["pylib"]}, r[1], text="")
+        else:
+            acc.violation(r[0], src, r[1])
 
 
 _ELINE_INFO: dict = {}
